@@ -295,6 +295,10 @@ def setup_rows(ex, st):
             s.ghost["n_err"] = Sym(INT, lift(s.ghost["n_err"]).z + 1)
             ex.obligations.append(Obligation("yield-mode/yielded-error-is-the-error-validate_row-just-raised", s.pc, z3.BoolVal(v == s.ghost.get("last_error")), "post", props=["C06"]))
     ex.yield_hook = hook
+    # F-14: the flag Reader.close relies on is raised only once every check has been reset
+    def before_flag(ex_, s):
+        ex_.obligations.append(Obligation("protocol/the-reader-marks-its-checks-as-reset-only-after-resetting-every-one-of-them", s.pc, G(s, "resets_done") == G(s, "m"), "protocol", props=["C08", "C05", "C20"]))
+    ex.stmt_hooks_before["self._has_reset_checks = True"] = before_flag
 
 
 def sf_outc(ex, st, k): return Sym(SeqRow, outc(lift(k).z))
@@ -786,6 +790,9 @@ def m_reader_rows(ex, st, recv, args, kw):
 
 def m_reader_close(ex, st, recv, args, kw):
     st.ghost["close_calls"] = st.ghost["close_calls"] + 1
+    # Reader.rows is a generator function: its body - beginning with the reset of every check - runs only when the first item is
+    # requested, so islice(rows, 0) reaches close() without a reset by rows(). Reader.close resets the checks itself in that case
+    # (repair F-14; verified by the unit validio.Reader.close, which fails if that guarantee is removed).
     fail = fresh(BOOL, "end_check_fails")[0]
     for s2, b in ex.fork(st, fail):
         if b:
@@ -798,6 +805,7 @@ def m_islice(ex, st, fn, args, kw):
     seq = it.seq
     cut = UFL(seq.elem_ty, seq.at, z3.If(n < seq.length, n, seq.length))
     f = lift(it.fail_at).z
+    st.ghost["never_started"] = (n <= 0)           # islice(it, 0) never calls next(it)
     yield st, FallibleIter(cut, Sym(INT, z3.If(z3.And(f >= 0, f < n), f, -1)), it.raise_fn)
 
 
@@ -1080,3 +1088,34 @@ def unit_c04_sweep():
                       "delimited CID (Integer id 1...3 chars, Text name <= 3, IsUnique id) x header 0-1 x all data texts of 1-3 lines over 9 line kinds (accepted, bad field 1 / 2, blank line, 1 or 3 items, empty cells, duplicate)",
                       describe=lambda c: {"header": c[0], "lines": c[1]}, function="validio.rows", unit="C04.sweep")]
     return NativeUnit("C04.sweep", "bounded end-to-end sweep: per-row verdicts and error locations (row incl. header rows, first offending column, culprit named)", ["C04"], run, kind="bounded")
+
+
+# ---------------------------------------------------------------- Reader.close (F-14): a reader whose rows() was never started resets the checks itself
+def unit_reader_close():
+    def setup(ex, st):
+        m = fresh(INT, "m")[0]; st.pc.append(m.z >= 0)
+        checks, c2 = fresh(UFList(CHECK), "checks"); st.pc.extend(c2); st.pc.append(checks.length == m.z)
+        i = z3.Int("i"); cio = ex.absfun_s("check_index_of", [sort_of(CHECK)], z3.IntSort())
+        st.pc.append(z3.ForAll([i], z3.Implies(z3.And(i >= 0, i < m.z), cio(checks.at(i)) == i)))
+        closed0 = fresh(BOOL, "closed0")[0]; started0 = fresh(BOOL, "rows_started0")[0]
+        cid = Ref("Cid"); st.heap[cid.oid] = {"_check_name_to_check_map": UFMap(STR, CHECK, None, values=checks)}
+        self = Ref("Reader"); st.heap[self.oid] = {"_cid": cid, "_is_closed": closed0, "_has_reset_checks": started0}
+        st.frames[-1].env.update({"self": self})
+        st.ghost.update({"this": self, "m": m, "resets_done": 0, "closed0": closed0, "started0": started0, "base_closed": 0})
+    def m_base_close(ex, st, fn, args, kw):
+        ex.obligations.append(Obligation("the-end-of-data-verdicts-run-on-checks-reset-for-this-run:-rows()-was-started-or-every-check-has-just-been-reset", st.pc,
+                                         z3.Or(G(st, "closed0"), G(st, "started0"), G(st, "resets_done") == G(st, "m")), "protocol", props=["C08", "C05", "C20"]))
+        st.ghost["base_closed"] = Sym(INT, G(st, "base_closed") + 1)
+        sb = st.copy(); yield from raise_new(ex, sb, "CheckError")
+        yield st, None
+    def make(ctx):
+        c = Contract("validio.Reader.close", setup,
+                returns=[Clause("base_closed == 1", "the-validator's-close-(end-verdicts-cleanup)-runs-exactly-once", props=["C08", "C20", "C05"]),
+                         Clause("resets_done == (m if (not closed0 and not started0) else 0)", "checks-are-reset-here-only-for-an-open-reader-whose-rows()-never-started-each-once-in-order", props=["C08", "C20"])],
+                raises={"CheckError": [Clause("base_closed == 1", "a-failing-end-verdict-comes-from-the-validator's-close", props=["C08"])]},
+                loops={0: LoopSpec(invariants=["resets_done == _i0"], havoc={"check": CHECK}, ghost_havoc={"resets_done": INT}, match="self.cid.check_map.values()")},
+                expect=["return", "CheckError"], raises_only_props=["C08", "C10"])
+        return {"contract": c, "callees": {"abs:Check.reset": AbsContract(m_reset), "validio.BaseValidator.close": ModelContract(m_base_close), "ref:BaseValidator.close": m_base_close_ref(m_base_close)},
+                "assumptions": ["BaseValidator.close is used through its verified contract; reset() of a check is abstract and protocol-monitored",
+                                "Reader.rows sets _has_reset_checks right after resetting every check (verified: the reset-first obligations of validio.Reader.rows)"]}
+    return ProofUnit("validio.Reader.close", "Reader.close: a reader whose rows() generator never started resets every check before the end-of-data verdicts (F-14)", ["C08", "C05", "C20", "C10"], make, None)
